@@ -62,6 +62,7 @@ package middlewares
 // ---- C04: the decoded request path is installed, and the request passed on, only for opaque names ----
 //@ func DecodeURL$1
 //@   at-call fiber.Ctx.Path {C04} [only-dot-free-paths-are-installed] when len($1) > 0 :: requires !backend.HasDotSegment($1[0])
+//@   at-call fiber.Ctx.Path {C03,C04,C10} [no-path-with-an-empty-segment-is-installed] when len($1) > 0 :: requires !backend.HasEmptySegment(strings.TrimPrefix($1[0], "/"))
 //@   at-call fiber.Ctx.Next {C04} [ids-are-single-path-elements] requires backend.IsPathComponent(ctx.Query("versionId")) && backend.IsPathComponent(ctx.Query("uploadId"))
 //@   at-call fiber.Ctx.Next {C04} [next-only-after-installing-the-decoded-path] requires called("fiber.Ctx.Path")
 // C08: an upload id that is given is not empty (the empty id is the directory of all uploads of the key)
